@@ -5,6 +5,9 @@ From RPFT Require Import Base.Sexp Base.PyStr Base.PyStrFacts Base.Result Gen.Ta
      Flow.RowSem Comp.Compile Comp.CompileFacts Comp.CompileIds Comp.CompileInv Comp.Refine Comp.RefineFacts Comp.RefineStore.
 Import ListNotations.
 
+Section WithNames.
+Context {GN : GenNames}.
+
 Lemma update_same {X} (l : list X) k x : nth_error l k = Some x -> RowSem.update l k x = l.
 Proof. revert k. induction l as [|y r IH]; intros [|k]; cbn; try discriminate; [congruence|]. intros H. rewrite IH by exact H. reflexivity. Qed.
 
@@ -57,15 +60,36 @@ Proof.
         apply NoDup_app_r in Hd. inversion Hd as [|? ? Hx _]; subst. apply Hx. left. reflexivity. }
       rewrite update_nth_other in Hcn2 by exact Hne. rewrite E1 in Hcn2.
       rewrite (update_nth_same _ _ _ _ E2) in Hcn2. injection Hcn2 as <- <-.
-      inversion Hns as [| |? ? e nr r0 d0 H1 H2 H3 H4 H5 H6 H7 H8 H9]; subst.
+      inversion Hns as [| | |? ? e nr r0 d0 H1 H2 H3 H4 H5 H6 H7 H8 H9]; subst.
       assert (clsr = SPlain /\ r0 = r) as [-> ->] by (rewrite Hb in H6; injection H6; auto).
       eapply NS_implicit with (e := e) (r := r'); cbn; eauto.
     + destruct (nth_error (cs_nodes sc) k1) as [a|] eqn:E1; [|discriminate]. injection Hcn as <- <-.
       assert (a = ndr) by congruence. subst a.
       rewrite (update_nth_same _ _ _ _ E1) in Hcn2. injection Hcn2 as <- <-.
-      inversion Hns as [? ? e H1 H2|? ? cls0 r0 d0 H1 H2 H3 H4 H5|]; subst.
+      inversion Hns as [? ? e H1 H2|? ? cls0 r0 d0 H1 H2 H3 H4 H5|? ? rr0 dr0 H1 H2 H3 H4|]; subst.
       * rewrite Hb in H2. discriminate.
       * eapply NS_router with (cls := clsr) (r := r'); cbn; eauto.
+      * rewrite Hb in H2. discriminate.
+Qed.
+
+(* the same for the node of a split_random row *)
+Lemma Sim_rand_update phi sr sc k n c d d' ndr r r' next' cont' :
+  Sim phi sr sc -> nth_error (s_nodes sr) k = Some n -> rn_dec n = Some d -> nth_error phi k = Some c -> snd c = None ->
+  nth_error (cs_nodes sc) (fst c) = Some ndr -> cn_body ndr = BRandom r ->
+  rand_sim phi (cuu sc) d' r' ->
+  Sim phi (RowSem.set_node sr k (mkRNode (rn_actions n) (Some d') cont'))
+      (Compile.set_node sc (fst c) (with_body ndr (BRandom r')) next').
+Proof.
+  intros Hsim Hk Hdec Hc Ho Hr Hb Hds.
+  destruct (sim_nodes _ _ _ Hsim k n c Hk Hc) as (nd & o & Hcn & Hns).
+  eapply Sim_set; eauto.
+  - left. reflexivity.
+  - rewrite Hb. cbn. exact I.
+  - intros nd2 o2 Hcn2. unfold cluster_nodes in *. destruct c as [k1 [j|]]; cbn in *; [discriminate|].
+    rewrite Hr in Hcn. injection Hcn as <- <-.
+    rewrite (update_nth_same _ _ _ _ Hr) in Hcn2. injection Hcn2 as <- <-.
+    inversion Hns as [? ? e H1 H2|? ? cls0 r0 d0 H1 H2 H3 H4 H5|? ? rr0 dr0 H1 H2 H3 H4|]; subst; try (rewrite Hb in H2; discriminate).
+    eapply NS_random with (r := r'); cbn; eauto.
 Qed.
 
 (* ---------------------------------------------------------------- a fresh router against a fresh decision *)
@@ -75,7 +99,7 @@ Lemma new_switch_dec_sim phi uu n operand timeout r0 n1 :
 Proof.
   unfold new_switch. destruct (new_cat fresh n s_Other None) as [[other n']|e] eqn:E; [|discriminate].
   apply (new_cat_spec fresh fresh_inj) in E as (-> & ->).
-  intros H Ht. assert (Hr : exists w, r0 = mkSwitch operand None w [] [] (mkCCat (fresh n) s_Other (mkCExit (fresh (S n)) None))
+  intros H Ht. assert (Hr : exists w, r0 = mkSwitch operand None w [] [] (mkCCat (fresh n) s_Other (mkCExit (fresh (S n)) None)) []
                                      /\ ((timeout = None /\ w = CWNone) \/ (timeout = Some 0%N /\ w = CWMsg))).
   { destruct Ht as [->| ->]; injection H as <- <-; eexists; split; eauto. }
   destruct Hr as (w & -> & Hw). constructor; cbn.
@@ -84,9 +108,11 @@ Proof.
   - reflexivity.
   - unfold wait_sim. cbn. destruct Hw as [[-> ->]|[-> ->]]; reflexivity.
   - constructor.
-  - split; cbn; exact I.
+  - split; cbn [fst snd fresh_dec rd_default cc_name]; [apply name_sim_wild; intros _; exact gname_other|exact I].
   - constructor.
   - unfold sw_all_cats. cbn. destruct Hw as [[_ ->]|[_ ->]]; cbn; (constructor; [intros []|constructor]).
+  - constructor; cbn; [constructor|intros u []|].
+    intros _. unfold sw_all_cats. cbn. destruct Hw as [[_ ->]|[_ ->]]; cbn; (constructor; [intros []|constructor]).
 Qed.
 
 (* ---------------------------------------------------------------- a conditional edge into a plain router *)
@@ -98,23 +124,30 @@ Inductive cls_rt : eclass -> rowtype -> Prop :=
 
 Definition ref_add (cls : eclass) (d : rdec) (c : econd) (tgt : dest) : rdec :=
   match cls with
-  | ESplit => add_case nab d (rd_operand d) (c_type c) (c_value c) [Some (c_value c)] (c_cname c) tgt
+  | ESplit => add_case nab d (rd_operand d) (c_type c) (c_value c) (ref_args c) (c_cname c) tgt
   | EGroup => add_case nab d (rd_operand d) has_group_s (c_value c) [None; Some (c_value c)] (c_cname c) tgt
-  | _ => add_case nab d (match c_variable c with [] => s_input_text | v => v end) (c_type c) (c_value c) [Some (c_value c)] (c_cname c) tgt
+  | _ => add_case nab d (match c_variable c with [] => s_input_text | v => v end) (c_type c) (c_value c) (ref_args c) (c_cname c) tgt
   end.
 
+(* what cond_ok says of the category name, for the two argument lists an edge may be compiled with *)
+Lemma cond_ok_names c : cond_ok c -> name_ok (c_cname c) (ref_args c) /\ name_ok (c_cname c) [None; Some (c_value c)].
+Proof.
+  intros (_ & _ & H & _). unfold name_ok, cname_ok in *. destruct explicit_names_claimed; [auto|].
+  destruct (c_cname c) as [|a nm]; [|auto]. split; intros k; apply (H k).
+Qed.
+
 Lemma plain_edge_dec phi uu n U cls rt d r c tgt dd r' n' :
-  dec_sim phi uu d r -> plain_dec d -> SwOK fresh n U r -> c_cname c = [] -> dest_sim phi uu tgt dd -> cls_rt cls rt ->
+  dec_sim phi uu d r -> plain_dec d -> SwOK fresh n U r -> cond_ok c -> dest_sim phi uu tgt dd -> cls_rt cls rt ->
   sw_add_choice fresh n r (match rt with RTOther => or_default (c_variable c) s_input_text | _ => sw_operand r end)
                 (match rt with RTSplitGroup => has_group_s | _ => or_default (c_type c) s_has_any_word end)
-                (match rt with RTSplitGroup => [None; Some (c_value c)] | _ => [Some (c_value c)] end)
+                (match rt with RTSplitGroup => [None; Some (c_value c)] | _ => row_args c end)
                 (c_cname c) dd false = Ok (r', n') ->
   dec_sim phi uu (ref_add cls d c tgt) r' /\ plain_dec (ref_add cls d c tgt).
 Proof.
-  intros Hs Hp Hok Hn Hd Hcr. rewrite Hn.
+  intros Hs Hp Hok Hc Hd Hcr. destruct (cond_ok_names c Hc) as [N1 N2]. destruct Hc as (Hra & _ & _). rewrite Hra.
   assert (Ev : (match c_variable c with [] => s_input_text | v => v end) = or_default (c_variable c) s_input_text)
     by (destruct (c_variable c); reflexivity).
-  destruct Hcr; cbn [ref_add]; rewrite ?Hn, ?Ev; intros H.
+  destruct Hcr; cbn [ref_add]; rewrite ?Ev; intros H.
   - eapply dec_sim_add_case; eauto.
   - eapply dec_sim_add_case; eauto.
   - rewrite (ds_operand _ _ _ _ Hs). eapply dec_sim_add_case; eauto.
@@ -130,6 +163,9 @@ Inductive exit_view (phi : list (nat * option nat)) (sc : cstate) (n : rnode) (c
     snd c0 = None -> nth_error (cs_nodes sc) (fst c0) = Some nd -> cn_body nd = BBasic e -> rn_dec n = None ->
     map snd (cn_actions nd) = rn_actions n -> dest_sim phi (cuu sc) (rn_cont n) (x_dest e) ->
     cls = EAction -> rt = RTOther -> exit_view phi sc n cls rt c0
+| EV_random nd r d0 :
+    snd c0 = None -> nth_error (cs_nodes sc) (fst c0) = Some nd -> cn_body nd = BRandom r -> rn_dec n = Some d0 ->
+    rand_sim phi (cuu sc) d0 r -> cls = ERandom -> rt = RTOther -> exit_view phi sc n cls rt c0
 | EV_router ndx clsr r d0 :
     nth_error (cs_nodes sc) (router_idx c0) = Some ndx -> cn_body ndx = BSwitch clsr r -> rn_dec n = Some d0 ->
     dec_sim phi (cuu sc) d0 r -> shape_ok clsr d0 ->
@@ -150,19 +186,20 @@ Proof.
   unfold cluster_nodes in Hcn. rewrite Hnd in Hcn. unfold cuu.
   destruct c0 as [a [j|]]; cbn in *.
   - destruct (nth_error (cs_nodes sc) j) as [nr|] eqn:Ej; [|discriminate]. injection Hcn as <- <-.
-    inversion Hns as [| |? ? e nr' r d0 H1 H2 H3 H4 H5 H6 H7 H8 H9]; subst.
+    inversion Hns as [| | |? ? e nr' r d0 H1 H2 H3 H4 H5 H6 H7 H8 H9]; subst.
     rewrite H2 in Hcl. destruct cls; cbn in Hcl; try contradiction. subst rt'.
     eapply EV_router with (ndx := nr) (clsr := SPlain); cbn; eauto. left. split; [reflexivity|constructor].
-  - injection Hcn as <- <-. inversion Hns as [? ? e H1 H2 H3 H4|? ? clsr r d0 H1 H2 H3 H4 H5|]; subst.
+  - injection Hcn as <- <-. inversion Hns as [? ? e H1 H2 H3 H4|? ? clsr r d0 H1 H2 H3 H4 H5|? ? rr0 dr0 H1 H2 H3 H4|]; subst.
     + rewrite H2 in Hcl. destruct cls; cbn in Hcl; try contradiction. subst rt'. eapply EV_basic; cbn; eauto.
     + eapply EV_router with (ndx := nd) (clsr := clsr); cbn; eauto.
       rewrite H2 in Hcl. destruct cls, clsr; cbn in Hcl; try contradiction; subst;
         try (left; split; [reflexivity|constructor]); try (right; left; split; reflexivity); right; right; split; reflexivity.
+    + rewrite H2 in Hcl. destruct cls; cbn in Hcl; try contradiction. subst rt'. eapply EV_random; cbn; eauto.
 Qed.
 
 Lemma sw_upd_cat_head p f r c rest :
   sw_cats r = c :: rest -> p c = true ->
-  sw_upd_cat p f r = mkSwitch (sw_operand r) (sw_result r) (sw_wait r) (sw_cases r) (f c :: rest) (sw_default r).
+  sw_upd_cat p f r = mkSwitch (sw_operand r) (sw_result r) (sw_wait r) (sw_cases r) (f c :: rest) (sw_default r) (sw_auto r).
 Proof. intros E Hp. unfold sw_upd_cat. rewrite E. cbn. rewrite Hp. cbn. reflexivity. Qed.
 
 (* the single fixed category of an enter-flow / webhook / airtime router is re-targeted by name *)
@@ -191,16 +228,28 @@ Lemma row_edge_sim phi sr sc g k cls n tgt d c n' k1 ks rt sc' :
   Sim phi sr sc -> StOK fresh GP sc ->
   nth_error (s_groups sr) g = Some (GRow k cls) -> nth_error (cs_groups sc) g = Some (CGRow k1 ks rt) ->
   nth_error (s_nodes sr) k = Some n ->
-  c_cname c = [] -> dest_sim phi (cuu sc) tgt d ->
+  cond_ok c -> dest_sim phi (cuu sc) tgt d ->
   apply_row_edge nab n cls c tgt = Some n' ->
   row_add_exit fresh sc g k1 ks rt d c = Ok sc' ->
   exists phi', Sim phi' (RowSem.set_node sr k n') sc' /\ phi_le phi phi'
                /\ (forall k0 c1, k0 <> k -> nth_error phi k0 = Some c1 -> nth_error phi' k0 = Some c1).
 Proof.
-  intros Hsim Hst Hg Hgc Hk Hcn Hd Href Hcomp.
+  intros Hsim Hst Hg Hgc Hk Hcok Hd Href Hcomp. destruct (cond_ok_names c Hcok) as [Hnm1 _].
+  assert (Hra : row_args c = ref_args c) by apply Hcok.
   destruct (exit_view_of phi sr sc g k cls n k1 ks rt Hsim Hg Hgc Hk) as (c0 & Hc0 & -> & -> & Hv).
   unfold row_add_exit in Hcomp. rewrite row_exit_router in Hcomp.
-  destruct Hv as [nd e Ho Hnd Hb Hdec Hact Hcont -> ->|ndx clsr r d0 Hndx Hb Hdec Hds Hsh Hcl].
+  destruct Hv as [nd e Ho Hnd Hb Hdec Hact Hcont -> ->|nd r d0 Ho Hnd Hb Hdec Hrs -> ->|ndx clsr r d0 Hndx Hb Hdec Hds Hsh Hcl].
+  2:{ (* ---- the node of a split_random row: every edge is a bucket *)
+    assert (Er : router_idx c0 = fst c0) by (unfold router_idx; rewrite Ho; reflexivity).
+    rewrite Er, Hnd, Hb in Hcomp. cbn [apply_row_edge] in Href. rewrite Hdec in Href. injection Href as <-.
+    rewrite andb_false_r in Hcomp.
+    destruct (rr_add_choice fresh (cs_next sc) r _ d) as [[r' n1]|x] eqn:Ea; [|discriminate]. injection Hcomp as <-.
+    exists phi. split; [|split; [apply phi_le_refl|auto]].
+    pose proof (StOK_random fresh GP _ _ _ _ Hst Hnd Hb) as Hok.
+    assert (Hbn : ~ is_bucket_name (bucket_name c)) by apply Hcok.
+    eapply Sim_rand_update; eauto.
+    assert (Eb : match c_cname c with [] => c_value c | x => x end = bucket_name c) by (unfold bucket_name, or_default; destruct (c_cname c); reflexivity).
+    rewrite Eb. eapply (rand_sim_add_bucket fresh fresh_inj); eauto. }
   - (* ---- the exit node is the basic node of an action row *)
     assert (Er : router_idx c0 = fst c0) by (unfold router_idx; rewrite Ho; reflexivity).
     rewrite Er, Hnd, Hb in Hcomp. cbn [apply_row_edge] in Href. rewrite Hdec in Href.
@@ -242,15 +291,15 @@ Proof.
       { apply SwOK_update_default.
         - eapply dest_ok_mono; [|eapply StOK_basic; eauto]. apply incl_appl, incl_refl.
         - eapply SwOK_mono; [| |exact Hok0]; [lia|apply incl_refl]. }
-      destruct (dec_sim_add_case fresh fresh_inj phi' uu' (S n1) _ _ _ variable (c_type c) (c_value c) [Some (c_value c)] tgt d r2 n3
-                  Hds1 ltac:(constructor) Hok1 Hd') as [Hds2 Hpl2].
-      { rewrite Hcn in Ea. exact Ea. }
+      destruct (dec_sim_add_case fresh fresh_inj phi' uu' (S n1) _ _ _ variable (c_type c) (c_value c) (ref_args c) (c_cname c) tgt d r2 n3
+                  Hds1 ltac:(split; [constructor|split; [reflexivity|destruct timeout; exact I]]) Hok1 Hd' Hnm1) as [Hds2 Hpl2].
+      { rewrite Hra in Ea. exact Ea. }
       exists phi'. split; [|split; [exact Hple|intros k0 c1 Hne0 H0; unfold phi'; rewrite update_nth_other by exact Hne0; exact H0]].
       (* the reference node *)
       assert (En' : n' = mkRNode (rn_actions n)
                      (Some (add_case nab (set_default (fresh_dec variable (match timeout with None => WNone | Some _ => WMsg end) DNone) (rn_cont n))
-                                     variable (c_type c) (c_value c) [Some (c_value c)] [] tgt)) DNone).
-      { unfold variable, timeout, or_default in *. rewrite Hcn in Href. destruct (c_variable c); injection Href as <-; reflexivity. }
+                                     variable (c_type c) (c_value c) (ref_args c) (c_cname c) tgt)) DNone).
+      { unfold variable, timeout, or_default in *. destruct (c_variable c); injection Href as <-; reflexivity. }
       rewrite En'. rewrite Ho. cbn [app].
       eapply (Sim_implicit phi sr sc g k EAction n _ (fst c0) nd); eauto.
       * destruct c0 as [a [b|]]; cbn in *; [discriminate|exact Hgc].
@@ -281,13 +330,14 @@ Proof.
         -- subst n'. unfold noresp_edge. destruct (rd_noresp d0) as [[nm x]|] eqn:Enp.
            ++ destruct (wait_sim_noresp_some _ _ _ _ _ _ Hds Enp) as (t & cw & Ew). rewrite Ew in Hcomp. injection Hcomp as <-.
               exists phi. split; [|split; [apply phi_le_refl|auto]].
-              eapply Sim_dec_update; eauto; try (eapply dec_sim_noresp; eauto); try exact Hsh.
+              eapply Sim_dec_update; eauto; try (eapply dec_sim_noresp; eauto).
+              destruct Hsh as (P1 & P2 & P3). rewrite Enp in P3. split; [exact P1|split; [exact P2|exact P3]].
            ++ pose proof (wait_sim_noresp_none _ _ _ _ Hds Enp) as Hw.
               destruct (sw_wait r); try contradiction; injection Hcomp as <-;
                 (exists phi; split; [rewrite set_node_same by exact Hk; exact Hsim|split; [apply phi_le_refl|auto]]).
         -- subst n'.
            destruct (sw_add_choice fresh (cs_next sc) r _ _ _ _ _ _) as [[r' n1]|x] eqn:Ea; [|discriminate]. injection Hcomp as <-.
-           destruct (plain_edge_dec phi (cuu sc) _ _ cls rt d0 r c tgt d r' n1 Hds Hsh Hok Hcn Hd Hcr Ea) as [Hds' Hpl'].
+           destruct (plain_edge_dec phi (cuu sc) _ _ cls rt d0 r c tgt d r' n1 Hds Hsh Hok Hcok Hd Hcr Ea) as [Hds' Hpl'].
            exists phi. split; [|split; [apply phi_le_refl|auto]].
            eapply Sim_dec_update; eauto.
       * (* start_new_flow *)
@@ -314,3 +364,4 @@ Proof.
            ++ injection Href as <-. injection Hcomp as <-. exists phi. split; [rewrite set_node_same by exact Hk; exact Hsim|split; [apply phi_le_refl|auto]].
 Qed.
 End Edge.
+End WithNames.
